@@ -39,9 +39,9 @@ func cases(tier string) int {
 var Check = &run.Check{
 	ID:    "C11",
 	Level: "exploration",
-	Rule: "case = generated JUnit-style tree: 1-4 test classes (*Test.java / *Tests.java, or any name under [module/]src/test/java/<package dirs>) + 0-2 production classes with the same patterns, in flat / nested-package / Maven layouts; " +
+	Rule: "case = generated JUnit-style tree: 1-4 test classes (*Test.java / *Tests.java, or any name under [module/]src/test/java/<package dirs>) + 0-2 production classes with the same patterns, in flat / nested-package / Maven layouts; ordinary names containing TestData / Testdata / testdata occur as class names (1 in 7) and as package directories (1 in 6 of the nested / Maven trees), the documented exclusion spelling testData never; " +
 		"every class has 1-5 methods annotated @Test / @Ignore / both in either order (own lines, one line, on the declaration line, comments between, one annotation over several lines; with and without annotation arguments), 0-3 helper methods with or without assertions " +
-		"(called unqualified, this-qualified or class-qualified), other methods without @Test/@Ignore (also @Before/@After/...) carrying the same patterns, and a static method other test classes call; in nested / Maven layouts 3 of 10 trees also hold two test classes of the SAME simple name in different packages, each with a helper of the same name (one asserting, one not) and a test that reaches an assertion only through it; " +
+		"(called unqualified, this-qualified or class-qualified), other methods without @Test/@Ignore (also @Before/@After/... and annotations whose names merely end in Test / Ignore: @BeforeTest, @AfterTest, @JsonIgnore, @XmlIgnore, on helpers too) carrying the same patterns, and a static method other test classes call; in nested / Maven layouts 3 of 10 trees also hold two test classes of the SAME simple name in different packages, each with a helper of the same name (one asserting, one not) and a test that reaches an assertion only through it; " +
 		"test bodies are assembled from planted evidence in random order, each call recorded with its line: System.out.print/println/printf x0-7, Thread.sleep x0-5, two-argument calls with identical arguments x0-3 (assertions and plain calls), " +
 		"assertion methods of each of the seven documented prefixes (unqualified, receiver, static-qualified, chained, nested in arguments) with multiplicities 1-7 (4/5/6 emphasised), plain calls (also one plain method x5-7), " +
 		"look-alikes (System.err.println, System.out.flush/format, writer.println, timer.sleep, TimeUnit.SECONDS.sleep, Thread.yield), new expressions, commented-out evidence, blocks (if/for/try), two statements on a line, argument lists continued on the next line; " +
@@ -120,6 +120,14 @@ func runCase(c *run.Ctx, o *run.Outcome) {
 	richMethod, mustBeSilent := false, false
 	for _, f := range t.Files {
 		o.Count("files_"+f.Role, 1)
+		if f.IsTest() {
+			if l := strings.ToLower(f.Class); strings.Contains(l, "testdata") {
+				o.Count("test_files_with_TestData_or_Testdata_in_class_name", 1)
+			}
+			if l := strings.ToLower(filepath.Dir(f.RelPath)); strings.Contains(l, "testdata") {
+				o.Count("test_files_under_testdata_or_Testdata_package_dir", 1)
+			}
+		}
 		if !f.IsTest() {
 			mustBeSilent = true
 		}
@@ -128,6 +136,14 @@ func runCase(c *run.Ctx, o *run.Outcome) {
 				mustBeSilent = true
 				if len(m.Calls) > 0 {
 					o.Count("methods_that_must_yield_nothing", 1)
+				}
+				if f.IsTest() {
+					for _, a := range m.Annos {
+						if strings.HasSuffix(a.Name, "Test") || strings.HasSuffix(a.Name, "Ignore") {
+							o.Count("non_test_methods_annotated_@"+a.Name, 1)
+							o.Seen("lookalike_annotations", a.Name+"/"+m.Role)
+						}
+					}
 				}
 				continue
 			}
